@@ -7,6 +7,7 @@ None / bool / int / str / list, the JSON codec, and the request handler. -/
 
 inductive PV where
   | none | bool (b : Bool) | int (i : Int) | str (s : String) | list (xs : List PV)
+  | float (n : Int) (d : Nat)      -- a Python float, exactly: n / d in lowest terms (float.as_integer_ratio)
   deriving Repr, Inhabited
 
 inductive PE where
@@ -30,14 +31,21 @@ def asInt : PV → Option Int
   | .int i => some i
   | _ => Option.none
 
+/-- bool / int / float as an exact rational -/
+def asRat : PV → Option (Int × Nat)
+  | .bool b => some (if b then 1 else 0, 1)
+  | .int i => some (i, 1)
+  | .float n d => some (n, d)
+  | _ => Option.none
+
 mutual
 /-- Python `==` (bool is an int; lists elementwise) — also Comparator.is_equal on this universe -/
 partial def pyEq : PV → PV → Bool
   | .none, .none => true
   | .str a, .str b => a == b
   | .list a, .list b => pyEqList a b
-  | a, b => match asInt a, asInt b with
-    | some x, some y => x == y
+  | a, b => match asRat a, asRat b with
+    | some (x, dx), some (y, dy) => x * dy == y * dx
     | _, _ => false
 partial def pyEqList : List PV → List PV → Bool
   | [], [] => true
@@ -51,6 +59,7 @@ partial def PV.same : PV → PV → Bool
   | .bool a, .bool b => a == b
   | .int a, .int b => a == b
   | .str a, .str b => a == b
+  | .float a b, .float c d => a == c && b == d
   | .list a, .list b => a.length == b.length && (a.zip b).all fun (x, y) => PV.same x y
   | _, _ => false
 
@@ -58,6 +67,7 @@ instance : BEq PV := ⟨PV.same⟩
 
 def truthy : PV → Bool
   | .none => false | .bool b => b | .int i => i != 0 | .str s => s != "" | .list xs => !xs.isEmpty
+  | .float n _ => n != 0
 
 def bitw (f : Bool → Bool → Bool) : Nat → Int → Int → Int
   | 0, a, b => if f (decide (a < 0)) (decide (b < 0)) then -1 else 0
@@ -71,6 +81,10 @@ partial def pyRepr : PV → String
   | .none => "None" | .bool b => if b then "True" else "False" | .int i => toString i
   | .str s => "'" ++ s ++ "'"
   | .list xs => "[" ++ ", ".intercalate (xs.map pyRepr) ++ "]"
+  | .float n d =>     -- only whole numbers and halves are ever generated
+    if d == 1 then toString n ++ ".0"
+    else if d == 2 then (if n < 0 then "-" else "") ++ toString (n.natAbs / 2) ++ ".5"
+    else "<float " ++ toString n ++ "/" ++ toString d ++ ">"
 
 def pyStr : PV → String
   | .str s => s
@@ -237,6 +251,34 @@ partial def pyApply (op : POp) (vs : List PV) : Except PE PV :=
     | [.str s] => if s.isEmpty then .ok (.int 0) else .error .typeErr     -- sum('') == 0
     | _ => .error .typeErr
   | "mklist" => .ok (.list vs)
+  | "round" =>
+    -- round(x) -> int (ties to even); round(x, 0) -> a value of x's own type
+    let halfEven (n : Int) (d : Nat) : Int :=
+      let q := n.fdiv d
+      let r := n - q * d
+      if 2 * r < d then q else if 2 * r > d then q + 1 else if q % 2 == 0 then q else q + 1
+    match vs with
+    | [.float n d] => .ok (.int (halfEven n d))
+    | [.float n d, nd] => match asInt nd with
+      | some 0 => .ok (.float (halfEven n d) 1)
+      | some _ => .error (.other "round-ndigits-not-modelled")
+      | Option.none => .error .typeErr
+    | [a] => match asInt a with | some i => .ok (.int i) | Option.none => .error .typeErr
+    | [a, nd] => match asInt a, asInt nd with
+      | some i, some k => if k ≥ 0 then .ok (.int i) else .error (.other "round-ndigits-not-modelled")
+      | _, _ => .error .typeErr
+    | _ => .error .typeErr
+  | "attr:real" | "attr:numerator" => match vs with
+    | [.float n d] => .ok (if op == "attr:real" then .float n d else .float n d)    -- float has no numerator: default = the object
+    | [a] => match asInt a with | some i => .ok (.int i) | Option.none => .ok a
+    | _ => .error .typeErr
+  | "attr:imag" => match vs with
+    | [.float _ _] => .ok (.float 0 1)
+    | [a] => match asInt a with | some _ => .ok (.int 0) | Option.none => .ok a
+    | _ => .error .typeErr
+  | "attr:denominator" => match vs with
+    | [a] => match asInt a with | some _ => .ok (.int 1) | Option.none => .ok a
+    | _ => .error .typeErr
   | "m:upper" => match vs with
     | [.str s] => .ok (.str s.toUpper)
     | .str _ :: _ => .error .typeErr
@@ -320,6 +362,9 @@ def hasAttr (v : PV) (op : POp) : Bool :=
   | .str _, "m:upper" | .str _, "m:count" | .str _, "m:index" => true
   | .list _, "m:count" | .list _, "m:index" => true
   | .bool _, "m:bit_length" | .int _, "m:bit_length" => true
+  | .bool _, "attr:real" | .bool _, "attr:imag" | .bool _, "attr:numerator" | .bool _, "attr:denominator" => true
+  | .int _, "attr:real" | .int _, "attr:imag" | .int _, "attr:numerator" | .int _, "attr:denominator" => true
+  | .float _ _, "attr:real" | .float _ _, "attr:imag" => true
   | _, _ => false
 
 def pySem : Sem PV PE POp :=
@@ -336,11 +381,17 @@ partial def parseVal : Json → Except String PV
   | .bool b => pure (.bool b)
   | .str s => pure (.str s)
   | .arr a => do pure (.list (← a.toList.mapM parseVal))
-  | j => do pure (.int (← j.getInt?))
+  | j => match j.getObjVal? "f" with
+    | .ok f => do
+      let a ← f.getArr?
+      if a.size != 2 then throw "float: [numerator, denominator] expected"
+      pure (.float (← a[0]!.getInt?) (← a[1]!.getNat?))
+    | .error _ => do pure (.int (← j.getInt?))
 
 partial def jVal : PV → Json
   | .none => .null | .bool b => .bool b | .int i => toJson i | .str s => .str s
   | .list xs => .arr (xs.map jVal).toArray
+  | .float n d => Json.mkObj [("f", Json.arr #[toJson n, toJson d])]
 
 def parseArg (j : Json) : Except String (Arg PV) := do
   match j.getObjVal? "n", j.getObjVal? "p" with
@@ -370,7 +421,7 @@ counterpart of the dunder table of `class rx` and of `reactive_ops` -/
 def formOp (form : String) : Except String (POp × Bool) :=
   let binary := ["add", "sub", "mul", "floordiv", "mod", "lshift", "rshift", "and_", "or_", "xor"]
   if binary.contains form || ["eq", "ne", "lt", "le", "gt", "ge", "neg", "pos", "abs", "inv", "getitem",
-      "len", "bool", "not_", "is_", "is_not"].contains form then .ok (form, false)
+      "len", "bool", "not_", "is_", "is_not", "round"].contains form then .ok (form, false)
   else if form.startsWith "r" && binary.contains ((form.drop 1).toString) then .ok ((form.drop 1).toString, true)
   else if form == "in_" then .ok ("contains", true)
   else if form == "rx_and" then .ok ("and", false)
@@ -384,7 +435,16 @@ def parseStmt (j : Json) : Except String (Stmt PV POp) := do
   | "lit" => return .lit (← parseVal (← j.getObjVal? "v"))
   | "obj" => return .obj (← (← getArr j "vs").toList.mapM parseVal)
   | "rootp" => return .rootp (← getNat j "p")
+  | "attr" =>
+    -- `acc = n.name` (plain attribute access).  The accessor is a copy of n whose `_resolve` applies
+    -- `getattr(current, name, current)` at the end; it is rendered as the model's method-call statement with
+    -- the total operation `attr:name` and no operands (same reads, same dependencies, same values; the two
+    -- extra nodes are not reachable).  An accessor must not be the subject of a further attribute / method access.
+    return .meth (← getNat j "n") ("attr:" ++ (← getStr j "op")) []
   | "op" =>
+    if (← getStr j "op") == "round0" then
+      -- round(n, 0): the literal 0 is an operand of the recorded operation
+      return .op (← getNat j "n") "round" false [.lit (.int 0)]
     let (o, rev) ← formOp (← getStr j "op")
     let (args, shape) ← parseShaped j "args"
     match shape with
